@@ -92,16 +92,33 @@ static std::string opValidationFail(int salt) {
 static std::string opSharedConst(int salt) {
 	Item r; BS::LoadObject<JS>(r, kSharedJson); std::string out = BS::SaveObject<MP>(kSharedItem); (void)salt; return fmtItem(r) + "#" + bsx::hex(out);
 }
+// string members wider than the archive's native character type go through the per-session transcoding buffer
+struct Wide { std::u16string a; std::wstring b; std::u32string c; int n = 0;
+	template <class A> void Serialize(A& ar) { ar << BS::KeyValue("a", a) << BS::KeyValue("b", b) << BS::KeyValue("c", c) << BS::KeyValue("n", n); } };
+static std::string opWideStrings(int salt) {
+	Wide w; w.a = u"u16 \u20AC " + BS::Convert::To<std::u16string>(std::to_string(salt)); w.b = L"wide \u00E9" + std::to_wstring(salt * 7); w.c = U"u32 \U0001F600" + BS::Convert::To<std::u32string>(std::to_string(salt + 100)); w.n = salt;
+	std::string js = BS::SaveObject<JS>(w); std::string mp = BS::SaveObject<MP>(w);
+	Wide r1, r2; BS::LoadObject<JS>(r1, js); BS::LoadObject<MP>(r2, mp);
+	return js + "#" + bsx::hex(mp) + "#" + BS::Convert::To<std::string>(r1.a) + BS::Convert::To<std::string>(r1.b) + BS::Convert::To<std::string>(r1.c) + "#" + BS::Convert::To<std::string>(r2.a) + BS::Convert::To<std::string>(r2.b) + BS::Convert::To<std::string>(r2.c);
+}
 using Op = std::string (*)(int);
-static const Op kOps[] = {opPairMultimapJson, opPairMsgPack, opEnum, opJsonMem, opXmlStream, opCsvMem, opMsgPackStream, opConvert, opValidationFail, opSharedConst};
-static const char* kOpName[] = {"pair_multimap_json", "pair_msgpack", "enum", "json_mem", "xml_stream", "csv_mem", "msgpack_stream", "convert", "validation_fail", "shared_const"};
-constexpr int NOPS = 10;
+static const Op kOps[] = {opPairMultimapJson, opPairMsgPack, opEnum, opJsonMem, opXmlStream, opCsvMem, opMsgPackStream, opConvert, opValidationFail, opSharedConst, opWideStrings};
+static const char* kOpName[] = {"pair_multimap_json", "pair_msgpack", "enum", "json_mem", "xml_stream", "csv_mem", "msgpack_stream", "convert", "validation_fail", "shared_const", "wide_strings"};
+constexpr int NOPS = 11;
 
 struct ThreadArg { int op; int salt; std::string result; };
 static void threadBody(void* p) { auto* a = static_cast<ThreadArg*>(p); try { a->result = kOps[a->op](a->salt); } catch (const std::exception& e) { a->result = std::string("EXCEPTION ") + e.what(); } }
 
 #ifdef C19_EXPLORE
-static int decide(void* ctx, int n, bool currentEnabled) { auto* c = static_cast<bsx::Ctx*>(ctx); return currentEnabled ? c->deviate(n, "preempt") : c->choose(n, "next"); }
+// Only the first kMaxDecisions scheduling points of an execution are decision points of the explorer (the engine keeps at
+// most 96 choices per execution and the schedule count grows with points^preemptions); later points continue the running
+// thread / take the first enabled thread. Races are found by the happens-before detector regardless of the schedule.
+static int gDecisions = 0; static bool gCapped = false; constexpr int kMaxDecisions = 40;
+static int decide(void* ctx, int n, bool currentEnabled) {
+	if (gDecisions >= kMaxDecisions) { gCapped = true; return 0; }
+	++gDecisions;
+	auto* c = static_cast<bsx::Ctx*>(ctx); return currentEnabled ? c->deviate(n, "preempt") : c->choose(n, "next");
+}
 static int decideSequential(void*, int, bool) { return 0; }
 static std::map<int, std::string> gGolden;                         // (op*16+salt) -> result of the operation run alone in a fresh process
 static std::map<std::string, std::vector<uintptr_t>> gHotCache;    // tuple -> hot cells
@@ -117,7 +134,7 @@ static void body(bsx::Ctx& c) {
 	int nthreads = thorough ? 2 + c.choose(2, "threads") : 2;
 	int ops[3] = {0, 0, 0};
 	ops[0] = c.choose(NOPS, "op0"); ops[1] = c.choose(NOPS, "op1");
-	if (nthreads == 3) { ops[2] = c.choose(4, "op2"); static const int third[] = {0, 2, 7, 9}; ops[2] = third[ops[2]]; if (!(ops[0] <= ops[1])) { c.outcome("n/a:unordered_triple"); return; } }
+	if (nthreads == 3) { ops[2] = c.choose(4, "op2"); static const int third[] = {0, 2, 7, 10}; ops[2] = third[ops[2]]; if (!(ops[0] <= ops[1])) { c.outcome("n/a:unordered_triple"); return; } }
 	else if (ops[0] > ops[1]) { c.outcome("n/a:symmetric_pair"); return; }
 	int dense = c.choose(2, "dense");
 	if (dense && !(thorough && nthreads == 2 && (ops[0] == ops[1] || ops[0] == 0 || ops[0] == 2))) { c.outcome("n/a:dense_mode_reserved_for_selected_pairs"); return; }
@@ -142,9 +159,10 @@ static void body(bsx::Ctx& c) {
 	}
 	const std::vector<uintptr_t>& hot = hit->second;
 	std::string fatal = c.isolateExec([&](bsx::Ctx& cc) {
-		rt::reset(dense == 1, true); rt::setHot(hot.data(), hot.size());
+		rt::reset(dense == 1, true); rt::setHot(hot.data(), hot.size()); gDecisions = 0; gCapped = false;
 		ThreadArg args[3]; for (int t = 0; t < nthreads; ++t) { args[t].op = ops[t]; args[t].salt = t + 1; rt::spawn(threadBody, &args[t]); }
 		rt::run(decide, &cc);
+		if (gCapped) cc.outcome("note:decision_points_capped_at_40");
 		uint64_t points = 0, acc = 0; rt::stats(points, acc);
 		cc.transition(points + 1);
 		std::string sched; for (int v : cc.choices()) sched += std::to_string(v);
